@@ -21,7 +21,8 @@ CONSTANTS Horizon,       \* last instant of the horizon (instants are 0..Horizon
           Reasons,       \* the disruption reasons
           ListAlphabet,  \* sequence of budgets from which the two- and three-element lists are formed
           ListInstants,  \* instants at which the lists are evaluated
-          BadCrons, BadNodes, NoHitCrons   \* malformed schedule / nodes texts, schedules that never fire
+          BadCrons, BadNodes, NoHitCrons,  \* malformed schedule / nodes texts, schedules that never fire
+          PctSizes       \* pool sizes of the percentage grid (family P)
 
 VARIABLES cs             \* the case being examined: [fam, budgets, now, n, reason]
 vars == <<cs>>
@@ -58,6 +59,12 @@ CasesW ==
 \* V: one always-active budget, every value x every pool size
 CasesV == {Case("V", <<Always(v[1], v[2], <<>>, "nil")>>, 0, n, "Drifted") : v \in ValueSpecs, n \in Sizes}
           \cup {Case("V", <<>>, 0, n, "Drifted") : n \in Sizes}      \* an explicitly empty budget list restricts nothing
+
+\* P: the percentage grid - EVERY integer percentage 0..100 x pool sizes (all small ones, the sizes that make
+\* pct*n/100 integral or nearly so, large ones): rounding-boundary cases (pct*n = 0, 1, 99 mod 100) are where an
+\* arithmetic regression hides.  A separate, cheap family with its own specification (PctSpec) so that the main
+\* enumeration does not grow.
+CasesP == {Case("P", <<Always("pct", p, <<>>, "nil")>>, 0, n, "Drifted") : p \in 0..100, n \in PctSizes}
 
 \* R: reason applicability (absent / empty / each reason / several), restrictive and permissive values
 CasesR == UNION {{Case("R", <<Always(v[1], v[2], rs, st)>>, 0, n, r) : st \in RState(rs)}
@@ -100,6 +107,8 @@ PickMalformed == cs = NoCase /\ cs' \in CasesM
 PickLenient   == cs = NoCase /\ cs' \in CasesN
 CaseNext == PickWindow \/ PickValue \/ PickReasons \/ PickList \/ PickMalformed \/ PickLenient
 CaseSpec == CaseInit /\ [][CaseNext]_vars
+PickPercent == cs = NoCase /\ cs' \in CasesP
+PctSpec == CaseInit /\ [][PickPercent]_vars
 
 \* ---- sanity invariants of the definitions, checked on every case
 A(bs) == Allowed(bs, cs.now, cs.n, cs.reason)
@@ -179,5 +188,7 @@ MC_ListAlphabet ==
 MC_BadCrons == {"61 * * * *", "* * * *", "0 0 * * 8", "CRON_TZ=Asia/Tokyo 0 * * * *", "hourly"}
 MC_BadNodes == {"abc", "", "1.5", "5 %", "%", "10 "}
 MC_NoHitCrons == {"0 0 31 2 *", "0 0 30 2 *"}
+MC_PctSizes == (0..30) \cup {33, 40, 50, 64, 99, 100, 101, 125, 150, 199, 200, 250, 300, 333, 999, 1000, 1001, 4096,
+                            10000, 65535, 1000000, 9999999, 10000000, 21474835}   \* 100 * n + 99 must fit TLC's 32-bit integers
 MC_ListInstants == LET h == 3 * Hr IN {h - 1, h, h + 10 * Mn - 1, h + 10 * Mn, h + 50 * Mn - 1, h + 50 * Mn}
 =============================================================================
